@@ -18,8 +18,8 @@ pub mod num {
         PInf,
     }
     use K8::*;
-    fn repr(x: i32) -> K8 {
-        if x > i8::MAX as i32 { PInf } else if x < i8::MIN as i32 { NInf } else { Num(x as i8) }
+    fn repr(x: i16) -> K8 {
+        if x > i8::MAX as i16 { PInf } else if x < i8::MIN as i16 { NInf } else { Num(x as i8) }
     }
     fn sgn(x: K8) -> i32 {
         match x { NaN => 0, NInf => -1, PInf => 1, Num(n) => (n as i32).signum() }
@@ -46,20 +46,20 @@ pub mod num {
         fn add(&self, r: &Self) -> Self {
             match (*self, *r) {
                 (NaN, _) | (_, NaN) | (PInf, NInf) | (NInf, PInf) => NaN,
-                (Num(a), Num(b)) => repr(a as i32 + b as i32),
+                (Num(a), Num(b)) => repr(a as i16 + b as i16),
                 (PInf, _) | (_, PInf) => PInf,
                 (NInf, _) | (_, NInf) => NInf,
             }
         }
         fn sub(&self, r: &Self) -> Self {
             let neg = match *r { NaN => NaN, NInf => PInf, PInf => NInf, Num(b) => return match *self {
-                Num(a) => repr(a as i32 - b as i32), x => x } };
+                Num(a) => repr(a as i16 - b as i16), x => x } };
             self.add(&neg)
         }
         fn mul(&self, r: &Self) -> Self {
             match (*self, *r) {
                 (NaN, _) | (_, NaN) => NaN,
-                (Num(a), Num(b)) => repr(a as i32 * b as i32),
+                (Num(a), Num(b)) => repr(a as i16 * b as i16),
                 (a, b) => inf_of(sgn(a) * sgn(b)),
             }
         }
@@ -67,7 +67,7 @@ pub mod num {
             match (*self, *r) {
                 (NaN, _) | (_, NaN) => NaN,
                 (Num(a), Num(0)) => inf_of((a as i32).signum()),
-                (Num(a), Num(b)) => repr(a as i32 / b as i32),
+                (Num(a), Num(b)) => repr(a as i16 / b as i16),
                 (Num(_), _) => Num(0),
                 (a, Num(b)) => inf_of(sgn(a) * if b < 0 { -1 } else { 1 }),
                 _ => NaN,
